@@ -178,6 +178,8 @@ def compare(a, b, fmt, tol):
         num(a.one_ints["core_mo"], b.one_ints.get("core_mo"), "one_ints")
         num(a.two_ints["two_mo"], b.two_ints.get("two_mo"), "two_ints")
         num(a.core_energy, b.core_energy, "core_energy")
+    if fmt == "wfx" and a.lot is not None and b.lot != a.lot:
+        diffs.append(f"lot ({a.lot!r} -> {b.lot!r})")
     if fmt in ("fchk", "molden", "molekel", "wfn", "wfx") and a.mo is not None:
         if b.mo is None:
             diffs.append("mo (lost)")
@@ -358,6 +360,10 @@ for fmt, files in CORPUS.items():
         except Exception:
             continue
         cycle(fmt, fn, obj, 1e-6)
+        if fmt == "wfx":
+            named = load_one(p, fmt=fmt)
+            named.lot = "rhf"  # written to <Model>
+            cycle(fmt, fn + "+lot", named, 1e-6)
         if fmt == "fchk":
             # every optional section the FCHK writer recognises, filled with asymmetric data
             n = obj.natom
